@@ -22,7 +22,9 @@ RULE = ('pseudo-observation arrays X (n,2): samples of Clayton/Frank/Gumbel draw
         '(B) distances/ranks/arg-max from the REAL curves, (C) the whole select_copula model; compared with '
         '_compute_empirical, _compute_candidates and the object returned by select_copula and by the deprecated '
         'Bivariate.select_copula. A case is distinct by (kind, bytes of X) and non-trivial when the ranking path '
-        'is taken (tau > 0).')
+        'is taken (tau > 0). The search also runs HISTORIES: chains of data sets whose taus differ by 2/(n(n-1)) '
+        '(one pair of points swapped) or sliding windows of one long sample, visited forwards and backwards in one '
+        'process; after every call theta is compared with a harness-side calibration of that data set\'s own tau.')
 PARTIAL = ['family_recovery_partial: ">= 70 % of seeds per (family, tau) cell for tau in [0.3,0.7], n >= 3000" is a '
            'statistical statement about samples; not modelled, examined only by the failing-input search (thorough '
            'tier / after a broken obligation)',
@@ -38,7 +40,10 @@ ASSUMPTIONS = ['real-number semantics of binary64 formulas (DESIGN 3.1)',
                'is a float32 array, so `base[k] ** 2`, `(1 - z_right[k]) ** 2`, `1.0 - 2 * z`, `np.power(tail, 2)` and '
                'Gumbel\'s `np.log(U)` on the diagonal are evaluated in float32 by the real code; curves are therefore '
                'compared with rtol 1e-6 (+ a conditioning term for the upper-tail curve), not bit-for-bit',
-               'count / N > 0 iff count > 0 in binary64 (count >= 1, N < 2^53: no underflow)']
+               'count / N > 0 iff count > 0 in binary64 (count >= 1, N < 2^53: no underflow)',
+               'Frank\'s calibration is a FUNCTION of tau (`Ext.frankSolve`): pinned by the translator (shape of '
+               'Frank.compute_theta), validated per case against a harness-side least_squares solution of the same '
+               'residual, and across call histories by the search']
 
 FAMS = ('frank', 'clayton', 'gumbel')
 NAN = float('nan')
@@ -308,6 +313,10 @@ class Tie:
         # harness-side calibration: tau from the Frank fit, thetas from the real classes
         if not same(frank.tau, fi['tau']):
             self.fail('corr:calibration', kind, X, f'Frank.fit tau {frank.tau!r} != kendalltau {fi["tau"]!r}')
+        own, ref = theta_is_own(frank.theta, frank.tau)
+        if not own:
+            self.fail('corr:calibration', kind, X, f'Frank.fit theta {frank.theta!r} is not the least_squares solution '
+                      f'of the generated tau residual for its own tau {frank.tau!r} (harness-side: {ref!r})')
         cands = real_candidates(frank.tau, frank)
         calib = {fam_of(c): c for c in cands}
         if not (real[1] in calib and same(real[2], frank.tau) and same(real[3], calib[real[1]].theta)):
@@ -578,6 +587,141 @@ def oracle(ctx, kind, X, extra=None):
     return 6
 
 
+# ----------------------------------------------------------------------------------- history oracle
+def frank_theta_independent(tau):
+    """Frank's calibration of `tau`, computed by the harness alone: the residual exactly as
+    `Frank._tau_to_theta` has it, solved exactly as `Frank.compute_theta` solves it — a function of tau and of
+    nothing else (no copulas object, no state)."""
+    import sys as _sys
+    from scipy import integrate
+    from scipy.optimize import least_squares
+    from copulas.utils import EPSILON
+    lo, hi = np.log(_sys.float_info.min), np.log(_sys.float_info.max)
+
+    def residual(alpha):
+        def debye(t):
+            return t / (np.exp(t) - 1)
+
+        alpha = np.ravel(alpha)[0]
+        debye_value = integrate.quad(debye, EPSILON, alpha)[0] / alpha
+        return 4 * (debye_value - 1) / alpha + 1 - tau
+
+    with np.errstate(all='ignore'):
+        return float(least_squares(residual, 1, bounds=(lo, hi)).x[0])
+
+
+def theta_is_own(theta, tau):
+    ref = frank_theta_independent(np.float64(tau))
+    return same(theta, ref) or abs(float(theta) - ref) <= 1e-9 * abs(ref), ref
+
+
+def swap_chain(X, swaps):
+    """the history [X, X with swap 1, X with swaps 1-2, …]: swap k exchanges the v-values of the rows of
+    u-rank 2k and 2k+1 (one pair of points changes its concordance: tau moves by 2/(n(n-1)))."""
+    order = np.argsort(X[:, 0], kind='stable')
+    out = [X.copy()]
+    cur = X.copy()
+    for k in swaps:
+        i, j = order[2 * k], order[2 * k + 1]
+        cur = cur.copy()
+        cur[i, 1], cur[j, 1] = cur[j, 1], cur[i, 1]
+        out.append(cur)
+    return out
+
+
+def run_history(ctx, label, history, visit, spec):
+    """call select_copula (and Frank().fit) on history[i] for i in `visit`, in this order, in this process; after
+    each call the returned (type, tau, theta) must be the calibration of THAT dataset's tau; a dataset visited
+    twice must give the identical answer.  `spec` is what `replay` needs to rebuild the history."""
+    from copulas.bivariate import Frank, select_copula
+    from scipy import stats
+    seen = {}
+    checks = 0
+    for pos, i in enumerate(visit):
+        X = history[i]
+        with np.errstate(all='ignore'):
+            tau = stats.kendalltau(X[:, 0], X[:, 1])[0]
+            try:
+                r = select_copula(X.copy())
+                f = Frank()
+                f.fit(X.copy())
+            except Exception:  # noqa  (malformed data are the plain oracle's business)
+                continue
+        fam = fam_of(r)
+        ans = (fam, float(r.tau), float(r.theta))
+        checks += 3
+        inp = dict(spec, visit=list(visit[:pos + 1]), position=pos, dataset=i, label=label)
+        for who, obj in (('select_copula', r if fam == 'frank' else None), ('Frank.fit', f)):
+            if obj is None:
+                continue
+            ok, ref = theta_is_own(obj.theta, tau)
+            if not ok:
+                ctx.fail_input('copulas.bivariate.select_copula', inp,
+                               {'via': who, 'tau': float(tau), 'theta': float(obj.theta),
+                                'own_calibration_of_tau': ref, 'delta': float(obj.theta) - ref},
+                               'theta is the Frank calibration of THIS dataset\'s Kendall tau (least_squares solution '
+                               'of the tau residual), whatever was fitted earlier in the process',
+                               'select_copula:result-depends-on-history')
+                return checks
+        if not same(r.tau, tau):
+            ctx.fail_input('copulas.bivariate.select_copula', inp, {'tau': float(r.tau), 'kendalltau': float(tau)},
+                           'result.tau == kendalltau of this dataset', 'select_copula:result-depends-on-history')
+            return checks
+        if i in seen and not (seen[i][0] == ans[0] and same(seen[i][1], ans[1]) and same(seen[i][2], ans[2])):
+            ctx.fail_input('copulas.bivariate.select_copula', inp, {'first_visit': seen[i], 'this_visit': ans},
+                           'the same X gives the identical (type, tau, theta) at every position of a history',
+                           'select_copula:result-depends-on-history')
+            return checks
+        seen.setdefault(i, ans)
+    return checks
+
+
+def history_base(kind, n, seed):
+    """a base data set for a history, rebuilt from (kind, n, seed) alone."""
+    if kind == 'clayton-reflected':          # tau < 0: select_copula always returns the Frank object
+        X = sampler('clayton', 0.45, seed).sample(n)
+        X[:, 1] = 1.0 - X[:, 1]
+        return X
+    if kind == 'clayton':
+        return sampler('clayton', 0.45, seed).sample(n)
+    if kind == 'frank':
+        return sampler('frank', 0.5, seed).sample(n)
+    r = np.random.RandomState(seed)
+    return r.uniform(size=(n, 2))
+
+
+def build_history(spec):
+    X = history_base(spec['base'], spec['n_base'], spec['seed'])
+    if spec['mode'] == 'swaps':
+        return swap_chain(X, spec['swaps'])
+    w, step = spec['width'], spec['step']
+    return [X[k * step:k * step + w] for k in range(spec['windows'])]
+
+
+def history_oracle(ctx, deep):
+    rng = ctx.rng('history')
+    checks = 0
+    plans = [('clayton-reflected', 300), ('frank', 250), ('uniform', 200)]
+    if deep:
+        plans += [('clayton', 400), ('clayton-reflected', 500), ('frank', 300), ('uniform', 300)]
+    for base, n in plans:
+        m = 8 if not deep else 14
+        spec = {'mode': 'swaps', 'base': base, 'n_base': n, 'seed': rng.randrange(2 ** 31),
+                'swaps': sorted(rng.sample(range(n // 2), m))}
+        hist = build_history(spec)
+        # forward, then backwards over the same datasets (every one is visited twice, neighbours first)
+        visit = list(range(len(hist))) + list(range(len(hist) - 1, -1, -1))
+        checks += run_history(ctx, f'swaps-{base}', hist, visit, spec)
+    wins = [('clayton-reflected', 2000, 2, 12)] + ([('clayton', 2000, 2, 40), ('clayton-reflected', 1000, 1, 40)] if deep else [])
+    for base, width, step, nwin in wins:
+        spec = {'mode': 'windows', 'base': base, 'n_base': width + step * nwin, 'seed': rng.randrange(2 ** 31),
+                'width': width, 'step': step, 'windows': nwin}
+        hist = build_history(spec)
+        visit = list(range(nwin)) + [nwin - 1, nwin // 2, 0]
+        checks += run_history(ctx, f'windows-{base}', hist, visit, spec)
+    return checks
+
+
 RECOVERY_TAUS = (0.3, 0.5, 0.7)
 RECOVERY_N = 3000
 RECOVERY_SEEDS = 10
@@ -605,6 +749,7 @@ def search(ctx, deep):
     for kind, X in datasets(ctx, grid, 'search', 2 if not deep else 6, 25 if not deep else 200,
                             6 if not deep else 30, sizes):
         checks += oracle(ctx, kind, X)
+    checks += history_oracle(ctx, deep)
     cells = {}
     if deep:
         rng = ctx.rng('recovery')
@@ -633,6 +778,9 @@ def replay(ctx, payload):
         fam = inp['family']
         got = recovery_cell(fam, inp['tau'], inp['seeds'], inp.get('n', RECOVERY_N))
         return sum(1 for g in got if g == fam) < 0.7 * len(got)
+    if cls == 'select_copula:result-depends-on-history' and 'mode' in inp:
+        run_history(ctx, inp.get('label', 'replay'), build_history(inp), inp['visit'], inp)
+        return any(f['class'] == cls for f in ctx.failing[before:])
     if inp.get('X') is not None and not inp.get('truncated'):
         oracle(ctx, inp.get('kind', 'replay'), np.array(inp['X'], dtype=float).reshape(-1, 2))
         return any(f['class'] == cls for f in ctx.failing[before:])
